@@ -47,7 +47,8 @@ CONSTANTS MaxSteps,    \* bound on the length of a history
           MaxSel,      \* maximal number of selectors of a place expression
           MaxIdx,      \* slice index selectors are 1..MaxIdx
           CopyTypes,   \* types T for which AssignVar / Swap of two places of type T are generated
-          Excl         \* names of the exclusions in force (random tiers): constructs of listed known findings
+          Excl,        \* names of the exclusions in force (random tiers): constructs of listed known findings
+          EmitAt       \* 0: exhaustive cfg (every state is emitted); n: simulation cfg (histories of length n are emitted)
 
 \* F-C04-1: a struct composite literal assigned to a struct VARIABLE replaces the variable's
 \* storage in the interpreter (pointers taken before stop aliasing it).  Pinned in the
@@ -399,19 +400,25 @@ Inst(kd, ev) ==
         \* shared or overlapping slices, pointer-to-struct fields), the storage the left-hand operands overwrite
         LET AD(T) == {q \in Pl(T) : AddrE(ev, q)}
             Al(T, d) == {q \in AD(T) : SameLoc(ev[q], ev[d])}
-        IN  \* D1, D2 = <alias of D2>, <alias of D1>
+            \* places whose location has another access path
+            Multi(T) == {d \in AD(T) : \E q \in AD(T) : q # d /\ SameLoc(ev[q], ev[d])}
+            \* exhaustive cfgs enumerate every instance; simulation cfgs draw the aliased operand first
+            \* (the instance set of the whole pool is too large to build at every step)
+            Pick(X) == IF EmitAt = 0 \/ X = {} THEN X ELSE {RandomElement(X)}
+        IN  \* D1, D2 = <alias of D2>, <alias of D1>   (at least one through another path)
             UNION {UNION {{[Op(kd) EXCEPT !.ds = <<dd[1], dd[2]>>, !.ss = <<sp[1], sp[2]>>, !.x = "swap2"] :
                              sp \in {q \in Al(T, dd[2]) \X Al(T, dd[1]) : q[1] # dd[2] \/ q[2] # dd[1]}} :
-                          dd \in {q \in AD(T) \X AD(T) : ~SameLoc(ev[q[1]], ev[q[2]])}} : T \in TupleTypes}
+                          dd \in {q \in (Pick(Multi(T)) \X AD(T)) \cup (AD(T) \X Pick(Multi(T))) :
+                                    ~SameLoc(ev[q[1]], ev[q[2]])}} : T \in TupleTypes}
             \* D1, D2 = v, <alias of D1>
             \cup UNION {{[Op(kd) EXCEPT !.ds = <<dd[1], dd[2]>>, !.ss = <<NoPl, s2>>, !.v = NewVal, !.x = "shift"] :
                              s2 \in Al("int", dd[1]) \ {dd[1]}} :
-                          dd \in {q \in AD("int") \X AD("int") : ~SameLoc(ev[q[1]], ev[q[2]])}}
+                          dd \in {q \in Pick(Multi("int")) \X AD("int") : ~SameLoc(ev[q[1]], ev[q[2]])}}
             \* C[0], C[1], C[2] = <alias of C[1]>, <alias of C[2]>, <alias of C[0]>
             \cup UNION {{[Op(kd) EXCEPT !.ds = <<El(c, 1), El(c, 2), El(c, 3)>>, !.ss = <<sp[1], sp[2], sp[3]>>, !.x = "rot3"] :
                              sp \in {q \in AlLoc(ev, c, 2) \X AlLoc(ev, c, 3) \X AlLoc(ev, c, 1) :
                                        q[1] # El(c, 2) \/ q[2] # El(c, 3) \/ q[3] # El(c, 1)}} :
-                          c \in {q \in Pl("L") : ev[q].ok /\ ev[q].val.len >= 3}}
+                          c \in Pick({q \in Pl("L") : ev[q].ok /\ ev[q].val.len >= 3})}
     [] kd = "MapTuple" ->   \* A["x"], A["y"] = B["y"], B["x"]  (B may be the same map through another path)
         UNION {{[Op(kd) EXCEPT !.d = pr[1], !.s = pr[2], !.x = T] :
                   pr \in {q \in Pl(T) \X Pl(T) : ev[q[1]].ok /\ ev[q[2]].ok /\ ev[q[1]].val.id # 0}} : T \in {"M", "MS"}}
@@ -732,7 +739,6 @@ ShareIdentity ==
 \* (EmitAt = 0) emit every state: with VIEW = <<mem, last, depth>> TLC visits every distinct
 \* (store, incoming operation, depth) once, so each is emitted with one history reaching it;
 \* the harness replays the histories of maximal length (they contain their prefixes).  Simulation cfgs emit the complete history (EmitAt = MaxSteps).
-CONSTANT EmitAt
 Emit == (hist # <<>> /\ (EmitAt = 0 \/ Len(hist) = EmitAt)) =>
             PrintT(<<"BEH", ToJson([init |-> InitKind, mem0 |-> (IF InitKind = "rich" THEN RichMem ELSE ZeroMem), ops |-> hist, obs |-> obs])>>)
 ===============================================================================
